@@ -1516,6 +1516,17 @@ def gen_fit_spec(rng, k=None):
         spec["n"] = max(spec["n"], 3)
     elif spec["transform"] == "boxcox" and rng.random() < 0.4:
         spec["lam"] = rng.choice(BOXCOX_BRANCH_POINTS)
+    if k is not None and nb + 16 <= k < nb + 28:
+        # every run: the INITIAL parameter vector of a freshly constructed likelihood (what every fit starts from),
+        # all coordinates or only the warping powers at their default value 1.0; full- and partial-range warpings
+        j = k - nb - 16
+        spec.update(warp=True, warp_range=["full", "partial"][j % 2], d=max(spec["d"], 2), n=max(spec["n"], 4),
+                    at_default=["all", "warping", "subset"][j % 3], encoding=["logarithm", "positive"][(j // 2) % 2],
+                    transform=["none", "boxcox"][(j // 4) % 2], lam=None, bound=None)
+        return spec
+    if rng.random() < 0.25:
+        spec["at_default"] = rng.choice(["all", "warping", "subset"])
+        spec["warp_range"] = rng.choice(["full", "partial"])
     if k is not None and nb <= k < nb + 16:
         # every run: both encodings, parameters exactly ON their bounds (where L-BFGS-B's projection puts them)
         spec.update(encoding=["logarithm", "positive"][k % 2], ard=True, warp=(k % 4 >= 2), n=max(spec["n"], 3),
@@ -1542,7 +1553,8 @@ def run_fit_objective(ctx, specs):
         enc = spec.get("encoding", "logarithm")
         kernel = Matern52(d, ARD=spec["ard"], encoding_type=enc)
         if spec["warp"]:
-            kernel = WarpedKernel(kernel=kernel, warpings=[Warping(dimension=d, coordinate_range=(0, d), encoding_type=enc)])
+            hi_c = d if (spec.get("warp_range", "full") == "full" or d < 2) else d - 1
+            kernel = WarpedKernel(kernel=kernel, warpings=[Warping(dimension=d, coordinate_range=(0, hi_c), encoding_type=enc)])
         with warnings.catch_warnings():
             warnings.simplefilter("ignore")
             lik = GaussianProcessMarginalLikelihood(
@@ -1574,6 +1586,16 @@ def run_fit_objective(ctx, specs):
                     for i in conv.name_to_index[name]:
                         v[i] = rs.uniform(-7.0, 0.0)
 
+            # coordinates left at the special / default values of a freshly constructed likelihood (warping powers
+            # exactly 1.0, initial mean, noise, scales): the point every fit starts from
+            mode = spec.get("at_default")
+            if mode:
+                rs_d = np.random.RandomState(spec["seed"] + 11)
+                for name in conv.names:
+                    for i in conv.name_to_index[name]:
+                        if mode == "all" or (mode == "warping" and "warping" in name) or (mode == "subset" and rs_d.rand() < 0.5):
+                            v[i] = v0[i]
+                ctx.h("fit_at_default_values", mode + ("/warped:" + spec.get("warp_range", "full") if spec["warp"] else ""))
             placed = []
             if spec.get("lam") is not None:
                 for name in conv.names:
@@ -1856,5 +1878,5 @@ def run(ctx, replay=None):
     run_indep(ctx, [gen_indep_spec(rng, k) for k in range(ctx.n(30, 500))])
     run_gp_resource_kernel(ctx, [gen_reskernel_spec(rng, k) for k in range(ctx.n(32, 500))])
     run_linear_explicit(ctx, [gen_linear_spec(rng) for _ in range(ctx.n(150, 2000))])
-    run_fit_objective(ctx, [gen_fit_spec(rng, k) for k in range(ctx.n(80, 600))])
+    run_fit_objective(ctx, [gen_fit_spec(rng, k) for k in range(ctx.n(88, 600))])
     run_fit_multifidelity(ctx, [gen_fit_mf_spec(rng, k) for k in range(ctx.n(16, 200))])
